@@ -55,7 +55,7 @@ def run_generic(PID, MODULE, PREFIX, OPS, tier, seed, what, thorough_flavours=("
     res.assumptions = ["hand model Model/Ntt.lean is tied to the code on the executed shapes only",
                        "index arithmetic on Nat: exact for log2 n <= 30; n = 2^31, 2^32 are out of reach here (DESIGN.md §6)"]
     st = run_gen()
-    standard_proof_phase(res, MODULE, PREFIX, st, ["Scalar"], thorough=(tier == "thorough"))
+    standard_proof_phase(res, MODULE, PREFIX, st, ["Scalar", "NttGen"], thorough=(tier == "thorough"))
     drv, err = build_driver()
     if err:
         res.broken.append(("model driver build", err))
